@@ -200,6 +200,28 @@ def run(rep, rng, tier):
             viol('true_response_spectra[refinement]', args, s1 if isinstance(s1, ImplError) else s2)
             continue
         add('KGe %s %s %s' % (q(1e-9), qlist(list(s1[0]) + list(s1[1])), qlist(list(s2[0]) + list(s2[1]))), 'true_response_spectra[refinement never decreases S_d, S_v]', args, nz=bool(np.any(a != 0)))
+    # ---- the object API refines the record before integrating (gen_response_spectrum): S_d never below the raw-sample value,
+    #      also when dt/target_dt is not an integer
+    import eqsig
+    for k in range(12 * N):
+        n = gens.small_len(rng, 8, 80)
+        a, kind = c01.gen_record(rng, n)
+        dt = rng.choice([0.01, 0.02, 0.25])
+        tmin = dt * rng.choice([6.0, 8.0, 9.0, 12.0, 13.0, 15.0, 20.0, 40.0])
+        periods = sorted([tmin] + [tmin * rng.uniform(1, 20) for _ in range(rng.randint(0, 2))])
+        ratio = rng.choice([1, 2, 4, 8])
+        args = {'dt': dt, 'periods': periods, 'min_dt_ratio': ratio, 'values': list(map(float, a))}
+
+        def obj_sd():
+            s = eqsig.AccSignal(a, dt)
+            s.gen_response_spectrum(response_times=np.array(periods), min_dt_ratio=ratio)
+            return np.array(s.s_d, dtype=float)
+        so = guarded(obj_sd)
+        sr = guarded(sdof.pseudo_response_spectra, a, dt, np.array(periods), 0.05)
+        if isinstance(so, ImplError) or isinstance(sr, ImplError):
+            viol('AccSignal.gen_response_spectrum[refinement]', args, so if isinstance(so, ImplError) else sr)
+            continue
+        add('KGe %s %s %s' % (q(1e-9), qlist(sr[0]), qlist(so)), 'AccSignal.s_d[refined record: never below the raw-sample S_d]', args, nz=bool(np.any(a != 0)))
     # ---- |alpha| scaling of spectra
     for k in range(15 * N):
         a, dt, periods, xi = setup()
